@@ -165,7 +165,7 @@ def handle (line : String) : String :=
   | "ast" :: rest =>
     match toksOfWords rest with
     | some ts => match parse ts with
-      | some e => "A " ++ astStr (normSpec e)
+      | some e => "A " ++ astStr (joinStr (normSpec e))
       | none => "parse-error"
     | none => "bad-op"
   | "toks" :: rest =>
